@@ -511,7 +511,9 @@ func c13Exec(variant string, prog []int, faults []int, wantTrace bool) *c13Out {
 			break
 		}
 		// (a) a failed begin / statement / row fetch / commit is reported by the operation
-		if s.res.err == nil && (kind == "put" || kind == "get" || kind == "start" || kind == "stop") {
+		// Close commits an explicit transaction that is still open: a failed commit there loses acknowledged
+		// writes and must be reported like any other (what Close returns WITHOUT a fault is not constrained)
+		if s.res.err == nil && (kind == "put" || kind == "get" || kind == "start" || kind == "stop" || s.op == c13Close) {
 			for _, fk := range s.fired {
 				if fk != pgfake.KRollback {
 					out.add("err", fmt.Sprintf("fault-not-reported-%s-%s", kind, fk), func() string {
